@@ -13,9 +13,11 @@ Not decided: the relation between two concrete runs; non-UTC zones (DST) are out
 """
 from __future__ import annotations
 
+import ast
+
 from ..core import Ctx, key_of
 from ..eqv import Eqv
-from ..model import norm
+from ..model import AnchorMissing, norm
 
 META = {
     "level": "other",
@@ -103,7 +105,55 @@ def _delta_keywords(fn, call):
     return names
 
 
+def _month_tables(tree) -> set:
+    """names bound (module or class level) to a 12/13-entry sequence of month lengths with a 28-day February"""
+    out = set()
+    for st in ast.walk(tree):
+        if isinstance(st, (ast.Assign, ast.AnnAssign)) and st.value is not None and isinstance(st.value, (ast.List, ast.Tuple)):
+            vals = [e.value for e in st.value.elts if isinstance(e, ast.Constant) and isinstance(e.value, int)]
+            if len(vals) == len(st.value.elts) and len(vals) in (12, 13) and set(vals) <= {0, 28, 29, 30, 31} and 28 in vals and vals.count(31) == 7:
+                for t in (st.targets if isinstance(st, ast.Assign) else [st.target]):
+                    if isinstance(t, ast.Name):
+                        out.add(t.id)
+    return out
+
+
+def _month_table_sites(fn_node, tables: set) -> list:
+    """subscripts of a month-length table in a function that has no leap-year handling of its own"""
+    leap = any((isinstance(x, ast.Attribute) and x.attr in ("isleap", "monthrange")) or (isinstance(x, ast.Name) and x.id in ("isleap", "monthrange")) or
+               (isinstance(x, ast.BinOp) and isinstance(x.op, ast.Mod) and isinstance(x.right, ast.Constant) and x.right.value in (4, 400))
+               for x in ast.walk(fn_node))
+    if leap:
+        return []
+    return [x for x in ast.walk(fn_node) if isinstance(x, ast.Subscript) and isinstance(x.ctx, ast.Load) and
+            ((isinstance(x.value, ast.Name) and x.value.id in tables) or (isinstance(x.value, ast.Attribute) and x.value.attr in tables))]
+
+
+def month_table_rule(ctx: Ctx, rid: str):
+    """No date is validated or computed against a fixed month-length table without leap-year handling: 29 February exists in the
+    shifted project whenever the shift crosses a leap day (zero expected; a built-in control must match)."""
+    ctrl = ast.parse("T = [0, 31, 28, 31, 30, 31, 30, 31, 31, 30, 31, 30, 31]\ndef f(m, d):\n    return d <= T[m]\n"
+                     "def g(y, m, d):\n    return d <= T[m] + (1 if m == 2 and y % 4 == 0 else 0)\n")
+    tabs = _month_tables(ctrl)
+    if tabs != {"T"} or len(_month_table_sites(ctrl.body[1], tabs)) != 1 or _month_table_sites(ctrl.body[2], tabs):
+        raise AnchorMissing("month-table rule: built-in control sample no longer matches")
+    tables = set()
+    for m in ctx.repo.by_rel.values():
+        tables |= _month_tables(m.tree)
+    n = 0
+    for fn in sorted(ctx.repo.all_funcs(), key=lambda f: f.key):
+        n += 1
+        for x in _month_table_sites(fn.node, tables):
+            ctx.ob(rid, f"{fn.qual}: {norm(x)[:50]}", (fn, x), False,
+                   f"{norm(x)[:40]} reads a month-length table with a 28-day February and the function has no leap-year handling: 29 February "
+                   "is rejected or mis-computed, so a project shifted by whole weeks onto a leap day does not give the shifted schedule",
+                   key=key_of(rid, fn, x, "month table"))
+    ctx.ob(rid, f"no leap-blind use of a month-length table ({sorted(tables)}) in {n} functions", None, True,
+           "dates are built and validated by datetime / calendar only", nontrivial=False)
+
+
 def run_extra(ctx: Ctx):
+    month_table_rule(ctx, "R14.5")
     # ---------------------------------------------------------------- R14.4 answers never come from state that outlives the question
     from .common import process_state_rule
     process_state_rule(ctx, "R14.4", [ctx.repo.func("Project.schedule"), ctx.repo.func("ProjectFileParser.parse")],
